@@ -591,7 +591,7 @@ Definition query_body (qi : nat) (q : query) (cur : pv) (cv : option N) : M (lis
                       | [] => ret []
                       | _ => accumulate_map cur keys vals qi q cv (check_and_delegate cnf name)
                       end
-                  | _ => panicM P_filter_prev_part_unreachable
+                  | _ => failM EIncompatibleRetrieval   (* fix c60bcbf; was unreachable!() at eval_context.rs:752 *)
                   end
               end
           | PList _ l =>
